@@ -28,7 +28,7 @@ pub fn ops_text(ops: &[Op]) -> String {
             Op::Bit(b) => out.push(if *b { '1' } else { '0' }),
             Op::Word(w) => out.push_str(&format!("W{:03X}", w)),
             Op::Byte(b) => out.push_str(&format!("B{:02X}", b)),
-            Op::Event(k, s) => out.push_str(&format!("E{:?}{}", k, match s { KeyState::Down => "↓", KeyState::Up => "↑", KeyState::SingleShot => "·" })),
+            Op::Event(k, s) => out.push_str(&format!("E{:?}{}", k, state_arrow(*s))),
             Op::Clear => out.push('c'),
             Op::SetCtrl(m) => out.push_str(if *m == HandleControl::MapLettersToUnicode { "mMap" } else { "mIgn" }),
         }
